@@ -186,6 +186,8 @@ func fsDrivers() []FSDriver {
 		M("api.ExtractPagesFile", "in.pdf", func(d, in, out string) error { return api.ExtractPagesFile(in, out, []string{"1", "3"}, newConf()) }),
 		M("api.ExtractContentFile", "in.pdf", func(d, in, out string) error { return api.ExtractContentFile(in, out, nil, newConf()) }),
 		M("api.ExtractAttachmentsFile", "att.pdf", func(d, in, out string) error { return api.ExtractAttachmentsFile(in, out, nil, newConf()) }),
+		// several outputs per call: failures at the 2nd, 3rd... output exercise what was done for the earlier ones
+		M("api.ExtractAttachmentsFile[3 attachments]", "att3.pdf", func(d, in, out string) error { return api.ExtractAttachmentsFile(in, out, nil, newConf()) }),
 		M("api.NDownFile", "in.pdf", func(d, in, out string) error {
 			cut, err := pdfcpu.ParseCutConfigForN(2, "", types.POINTS)
 			if err != nil {
